@@ -183,6 +183,13 @@ def emit_all(emit):
         emit("c08Arc3Compares", CMP_T, compares(f.arc_length_3point), "comparisons of arc_length_3point: denominator guard, side test")
         emit("c08Arc3Numbers", NUM_T, numbers(f.arc_length_3point), "numeric literals of arc_length_3point in source order")
         emit("c08Arc3Clip", "List (List String)", calls(f.arc_length_3point, "clip"), "arguments of np.clip in arc_length_3point")
+        # the comparator of the first comparison (the denominator guard) as the double the interpreter compares with, exactly
+        first = sorted((n for n in ast.walk(fn_tree(f.arc_length_3point)) if isinstance(n, ast.Compare)), key=_pos)[0]
+        bound = first.comparators[0]
+        if not (isinstance(bound, ast.Constant) and isinstance(bound.value, float)):
+            raise ValueError("the denominator guard of arc_length_3point is not a comparison with a float literal")
+        num, den = bound.value.as_integer_ratio()
+        emit("c08Arc3GuardDouble", "Int × Nat", (num, den), "the float literal of the denominator guard as the exact value of the double")
 
     def divide():
         from classy_blocks.util import functions as f
